@@ -406,6 +406,57 @@ def search_cases(ctx):
 # real code
 # ----------------------------------------------------------------------------------------------
 
+COLS = ['serial', 'name', 'altLoc', 'resName', 'chainID', 'resSeq', 'iCode', 'x', 'y', 'z', 'occ', 'temp', 'element', 'model']
+
+
+def safe_table(rows):
+    """table_json made total: (table, bad).  On well-formed rows (14 columns, integers where integers belong, FINITE numbers in
+    x, y, z, occ, temp) the table is exactly table_json(rows) and bad == [].  Whatever cannot be expressed as such - None (SQLite
+    stores NaN as NULL), inf, nan, text in a number column, a row of another length, something that is not a list of rows - is
+    listed in `bad` as 'row i <column> = <repr>' and replaced in the table by 0 so that the drivers can still be given a line;
+    a non-empty `bad` is a disagreement wherever the table is used (a coordinate that is not a finite number is no coordinate:
+    the table is not a rigid rotation of the input and more than the coordinates has changed)."""
+    table, bad = [], []
+    try:
+        rows = list(rows)
+    except Exception:
+        return [], [f'not a list of rows: {type(rows).__name__} {str(rows)[:60]!r}']
+    for i, r in enumerate(rows):
+        try:
+            r = list(r)
+        except Exception:
+            bad.append(f'row {i} is not a row: {str(r)[:60]!r}'); r = []
+        if len(r) != 14:
+            bad.append(f'row {i} has {len(r)} columns')
+            r = (r + [None] * 14)[:14]
+        row = []
+        for k, x in enumerate(r):
+            if k in (0, 5, 13):
+                try:
+                    row.append(int(x))
+                except Exception:
+                    bad.append(f'row {i} {COLS[k]} = {x!r}'); row.append(0)
+            elif 7 <= k <= 11:
+                try:
+                    if isinstance(x, (bool, str, bytes)):
+                        raise TypeError
+                    f = float(x)
+                    if not math.isfinite(f):
+                        raise ValueError
+                    row.append(rat(f))
+                except Exception:
+                    bad.append(f'row {i} {COLS[k]} = {x!r}'); row.append('0/1')
+            else:
+                row.append(str(x))
+        table.append(row)
+    return table, bad
+
+
+def bad_text(bad, nrows):
+    rows = sorted({b.split()[1] for b in bad if b.startswith('row ')})
+    return f'{bad[0]}' + (f' (and {len(bad) - 1} more entries, {len(rows)} of {nrows} rows)' if len(bad) > 1 else '')
+
+
 def impl(ctx, c):
     """total: whatever the implementation (or the recording) does, a canonical value comes back; anything unexpected is an
     'error' value that disagrees with Model and Spec and so yields a verdict, never a harness crash"""
@@ -423,12 +474,14 @@ def impl(ctx, c):
 def impl_inner(ctx, c):
     if c['op'] == 'align_axis':
         db = pdb2sql(c['lines'])
-        c['obs'] = {'db': table_json(db.get('*'))}
+        t0, bad0 = safe_table(db.get('*'))
+        c['obs'] = {'db': t0}
         try:
             AL.align(db, axis=c['axis'], export=False)
         except Exception as e:
-            return {'error': exc_tag(e), 'unchanged': table_json(db.get('*')) == c['obs']['db']}
-        return {'table': table_json(db.get('*'))}
+            t1, bad1 = safe_table(db.get('*'))
+            return {'error': exc_tag(e), 'unchanged': t1 == t0 and bad1 == bad0}
+        return {'table': safe_table(db.get('*'))[0]}
     work = os.path.join(ctx.tmpdir(), 'cwd_%d' % id(c))
     os.makedirs(work, exist_ok=True)
     rec = {}
@@ -451,6 +504,9 @@ def impl_inner(ctx, c):
     else:
         src = cls(c['lines'])
         ref = src
+        if c.get('prelude'):
+            # the table as parsed, before the history: what the drivers are given if the history itself ruins the table
+            c['obs'] = {'db': safe_table(ref.get('*'))[0]}
         for a in c.get('prelude', []):
             try:
                 if c['func'] == 'align':
@@ -460,7 +516,15 @@ def impl_inner(ctx, c):
             except Exception:
                 pass
     before = ref.get('*')
-    c['obs'] = {'db': table_json(before)}
+    before_table, bad = safe_table(before)
+    if bad:
+        # every call of a history is itself a call of align / align_interface on a valid structure: a table that no longer
+        # holds finite coordinates after it is the violation (the input of the case is the replay)
+        c.setdefault('obs', {'db': []})
+        return {'nonfinite': ('after the earlier call(s) ' + ', '.join(f'{c["func"]}({a!r})' for a in c.get('prelude', [])) + ' of the history: '
+                              if c.get('prelude') else 'the table as parsed: ') + bad_text(bad, len(before_table)),
+                'table': before_table, 'new_files': [], 'recorded': False}
+    c['obs'] = {'db': before_table}
     files0 = set(os.listdir('.'))
     AL.get_rotation_angle = gra
     try:
@@ -475,17 +539,23 @@ def impl_inner(ctx, c):
     new_files = sorted(set(os.listdir('.')) - files0)
     try:
         after = sql.get('*')
-        out_table = table_json(after)
     except Exception as e:
         return {'error': 'ERR:Unexpected:return-value', 'message': f'{type(sql).__name__}: {e}'[:200]}
+    out_table, bad = safe_table(after)
     c['obs']['out'] = out_table
     res = {'table': out_table, 'new_files': new_files, 'recorded': 'angles' in rec}
+    if bad:
+        res['nonfinite'] = f'after {c["func"]}: ' + bad_text(bad, len(out_table))
     if 'angles' in rec:
         phi, theta = rec['angles']
         v = rec['v']
-        c['obs'].update({'v': [rat(x) for x in v], 'r': rat(float(np.linalg.norm(v))),
-                         'cp': rat(float(np.cos(phi))), 'sp': rat(float(np.sin(phi))),
-                         'ct': rat(float(np.cos(theta))), 'st': rat(float(np.sin(theta)))})
+        if np.all(np.isfinite(v)) and math.isfinite(phi) and math.isfinite(theta):
+            c['obs'].update({'v': [rat(x) for x in v], 'r': rat(float(np.linalg.norm(v))),
+                             'cp': rat(float(np.cos(phi))), 'sp': rat(float(np.sin(phi))),
+                             'ct': rat(float(np.cos(theta))), 'st': rat(float(np.sin(theta)))})
+        else:
+            # nothing the Model could be handed: the driver line falls back to its defaults and the comparison reports this
+            res['angles_not_finite'] = f'vector {[float(x) for x in v]}, (phi, theta) = ({phi!r}, {theta!r})'
     # independent recomputation of the principal direction of the selected atoms after the call
     e = np.eye(3)['xyz'.index(c['axis'])]
     try:
@@ -495,6 +565,8 @@ def impl_inner(ctx, c):
         res['sin_angle_to_axis'] = float(np.linalg.norm(np.cross(d, e)))
     except Exception:
         res['sin_angle_to_axis'] = 2.0
+    if not math.isfinite(res['sin_angle_to_axis']):       # NaN compares False with everything: it must not pass as 'small'
+        res['sin_angle_to_axis'] = 2.0
     # the vector the code aligned must be the extreme principal direction of the selection before the call
     try:
         Xb = np.array([r[7:10] for r, m in zip(before, c['mask']) if m], float)
@@ -502,6 +574,8 @@ def impl_inner(ctx, c):
         db_ = Vb[:, 0] if c['least'] else Vb[:, 2]
         res['vector_is_principal'] = float(np.linalg.norm(np.cross(db_, rec['v'] / np.linalg.norm(rec['v'])))) if 'v' in rec else 2.0
     except Exception:
+        res['vector_is_principal'] = 2.0
+    if not math.isfinite(res['vector_is_principal']):     # the zero vector (or a non-finite one) is not a principal direction
         res['vector_is_principal'] = 2.0
     return res
 
@@ -514,6 +588,12 @@ def driver_line(c):
     d.update(obs)
     if 'v' not in d:                       # nothing was recorded (the implementation raised, or never computed the angles)
         d.update({'v': ['0/1'] * 3, 'r': '1/1', 'cp': '1/1', 'sp': '0/1', 'ct': '1/1', 'st': '0/1'})
+    if 'out' not in d:
+        # the implementation raised, returned something that is not a database, or ruined the table during the history: the Spec
+        # driver answers null on a line without 'out' and the runner skips agree_spec on a null answer - the outcome would
+        # then never become a Spec verdict with this input.  The table before the call stands in; agree_spec reports the
+        # outcome recorded in the implementation output before it looks at the certificate.
+        d['out'] = d['db']
     return d
 
 
@@ -541,9 +621,13 @@ def agree_model(c, out, model):
         return f'implementation accepted axis {c["axis"]!r}'
     if 'error' in out:
         return f'implementation raised {out["error"]}: {out.get("message")}'
+    if out.get('nonfinite'):
+        return 'the table does not hold finite coordinates (' + out['nonfinite'] + '); the model returns a table of rationals'
     m = model['table']
     if isinstance(m, str):
         return f'model {m!r}, implementation returned a table'
+    if out.get('angles_not_finite'):
+        return 'the rotation angles the implementation derived are not finite numbers: ' + out['angles_not_finite']
     if not out.get('recorded'):
         return 'the implementation returned without computing the rotation angles of the principal vector (get_rotation_angle was never called)'
     if model['nsel'] != sum(c['mask']):
@@ -571,6 +655,9 @@ def agree_spec(c, out, spec):
         return f'implementation accepted axis {c["axis"]!r}'
     if 'error' in out:
         return f'implementation raised {out["error"]}: {out.get("message")}'
+    if out.get('nonfinite'):
+        return ('the table does not hold finite coordinates (' + out['nonfinite'] + '): not a rigid rotation of the input, '
+                'no principal direction on the axis, and more than the values of the coordinates has changed')
     bad = []
     if spec is None:
         return 'the Spec could not be evaluated on the implementation output'
@@ -582,9 +669,9 @@ def agree_spec(c, out, spec):
         bad.append(f'the {"least" if c["least"] else "largest"}-variance direction is not parallel to the axis (eigen-defect {float(unrat(spec["offAxis"])):.3e})')
     if float(unrat(spec['minMinor'])) < -1e-7:
         bad.append('the axis is an eigen-direction but not the extreme one')
-    if out['sin_angle_to_axis'] > 1e-6:
+    if not out['sin_angle_to_axis'] <= 1e-6:
         bad.append(f'independent eigh: angle to the axis {out["sin_angle_to_axis"]:.3e}')
-    if out.get('recorded') and out['vector_is_principal'] > 1e-6:
+    if out.get('recorded') and not out['vector_is_principal'] <= 1e-6:
         bad.append('the vector handed to the alignment is not the extreme principal direction of the selection')
     if unrat(spec['centroidShift']) > TOL * scale:
         bad.append('the centroid of the structure moved')
@@ -721,12 +808,28 @@ def gen_align_checks(ctx):
         return d
 
     def table_of(db):
-        return table_json(db.get('*'))
+        """total: a table, or a text saying why what the real code left behind is not one (None / nan / inf coordinates, ...);
+        the text differs from every table the generated code can return, so it is reported by the comparison"""
+        try:
+            t, bad = safe_table(db.get('*'))
+        except Exception as e:
+            return f'unreadable table ({exc_tag(e)}: {str(e)[:80]})'
+        return t if not bad else 'not a table of finite numbers: ' + bad_text(bad, len(t))
+
+    def rats(xs):
+        """exact rationals of an array of floats, or a text when they are not all finite numbers"""
+        try:
+            xs = [float(x) for x in np.array(xs, float).ravel()]
+        except Exception as e:
+            return f'not numbers ({type(e).__name__})'
+        return [rat(x) for x in xs] if all(math.isfinite(x) for x in xs) else f'not finite: {xs[:9]}'
 
     def close(a, b, tol, scale):
         return abs(unrat(a) - unrat(b)) <= tol * scale
 
     def cmp_tables(real, gen, tol):
+        if isinstance(real, str) or isinstance(gen, str):
+            return None if real == gen else f'real {str(real)[:160]}, generated {str(gen)[:80]}'
         if len(real) != len(gen):
             return f'row counts differ: real {len(real)}, generated {len(gen)}'
         scale = max([F(1)] + [abs(unrat(r[k])) for r in gen for k in (7, 8, 9)])
@@ -746,7 +849,7 @@ def gen_align_checks(ctx):
         out = []
         for n in names:
             try:
-                out.append([n, table_json(pdb2sql(n).get('*'))])
+                out.append([n, table_of(pdb2sql(n))])
             except Exception as e:
                 out.append([n, 'unreadable: ' + exc_tag(e)])
         return out
@@ -756,8 +859,22 @@ def gen_align_checks(ctx):
     def add(line, real, what):
         lines_d.append(line); meta.append((what, real))
 
+    crashes = []
+
+    def crashed(what, e, inp):
+        """whatever the real code returned or raised that the observation cannot make sense of is a disagreement with its input"""
+        crashes.append({'what': what, 'why': f'the observation of the real code failed ({type(e).__name__}: {str(e)[:160]})', 'driver_line': inp})
+
     # ---- whole calls: align / align_interface ---------------------------------------------------
     def whole(c, kwargs=None, axis=None, plane=None, tag=None):
+        try:
+            whole_(c, kwargs, axis, plane, tag)
+        except Exception as e:
+            os.chdir(cwd)
+            crashed(tag or c['family'], e, {'func': c['func'], 'lines': c['lines'], 'axis': axis or c.get('axis'), 'plane': plane or c.get('plane'),
+                                            'kwargs': c['kwargs'] if kwargs is None else kwargs, 'export': c['export'], 'source': c['source']})
+
+    def whole_(c, kwargs=None, axis=None, plane=None, tag=None):
         kwargs = dict(c['kwargs']) if kwargs is None else kwargs
         sub = os.path.join(work, 'w%d' % len(lines_d))
         os.makedirs(sub, exist_ok=True)
@@ -850,11 +967,14 @@ def gen_align_checks(ctx):
         if rep % 7 == 0:
             v = np.array([0.0, 0.0, rng.choice([1.0, -2.0])])
         ax = 'q' if rep % 4 == 3 else rng.choice(['x', 'y', 'z'])
-        rec, res = observe(lambda: AL.align_pca_vect(db, v, ax))
         line = {'op': 'gen_align', 'func': 'align_pca_vect', 'axis': ax, 'db': table_json(before), 'vect': [rat(x) for x in v]}
-        line.update(world(rec))
-        real = {'error': res, 'table_after': table_of(db)} if isinstance(res, str) else {'table': table_of(res), 'same_object': res is db}
-        add(line, real, 'align_pca_vect')
+        try:
+            rec, res = observe(lambda: AL.align_pca_vect(db, v, ax))
+            line.update(world(rec))
+            real = {'error': res, 'table_after': table_of(db)} if isinstance(res, str) else {'table': table_of(res), 'same_object': res is db}
+            add(line, real, 'align_pca_vect')
+        except Exception as e:
+            crashed('align_pca_vect', e, line)
 
     # ---- export_aligned: the file name ----------------------------------------------------------
     names = ['mol1.pdb', 'a.b.pdb', 'pdb.pdb', 'model', 'decoy.pdbb', 'x.pdb.pdb', 'bdp', 'complex_1.ent', 'ab.pd', None, 'p', '1AK4.PDB']
@@ -868,9 +988,12 @@ def gen_align_checks(ctx):
             if nm is not None:
                 db.pdbfile = nm
             files0 = set(os.listdir('.'))
+            line = {'op': 'gen_align', 'func': 'export_aligned', 'db': table_json(db.get('*')), 'pdbfile': nm}
             rec, res = observe(lambda: AL.export_aligned(db))
             real = {'error': res} if isinstance(res, str) else {'files': read_files(new_files(files0))}
-            add({'op': 'gen_align', 'func': 'export_aligned', 'db': table_of(db), 'pdbfile': nm}, real, 'export_aligned')
+            add(line, real, 'export_aligned')
+        except Exception as e:
+            crashed('export_aligned', e, {'func': 'export_aligned', 'lines': c['lines'], 'pdbfile': nm})
         finally:
             os.chdir(cwd)
 
@@ -879,19 +1002,26 @@ def gen_align_checks(ctx):
         n = [0, 1, 2, 3, 4, 7, 20][rep % 7]
         X = np.round(g.normal(size=(n, 3)) * g.uniform(0.5, 9, size=3) + g.uniform(-30, 30, size=3), 3)
         xyz = np.array([list(map(float, r)) for r in X]) if n else np.array([])
-        rec, res = observe(lambda: AL.pca(xyz))
         line = {'op': 'gen_align', 'func': 'pca', 'xyz': [[rat(x) for x in r] for r in X]}
-        line.update(world(rec))
-        real = {'pca': res if isinstance(res, str) else [[rat(x) for x in res[0]], [rat(x) for x in np.array(res[1]).ravel()]],
-                'cov': [rat(x) for x in rec['cov'][-1][1].ravel()] if rec['cov'] and np.all(np.isfinite(rec['cov'][-1][1])) else None}
+        try:
+            rec, res = observe(lambda: AL.pca(xyz))
+            line.update(world(rec))
+            real = {'pca': res if isinstance(res, str) else [rats(res[0]), rats(res[1])],
+                    'cov': [rat(x) for x in rec['cov'][-1][1].ravel()] if rec['cov'] and np.all(np.isfinite(rec['cov'][-1][1])) else None}
+        except Exception as e:
+            crashed('pca', e, line)
+            continue
         # the selection of the extreme eigenvector, with ties: a synthetic decomposition handed to get_max / get_min through `pca`
         u = [float(rng.choice([-1.0, 0.0, 0.5, 2.0, 2.0, 3.5])) for _ in range(3)]
         V = np.round(g.normal(size=(3, 3)), 3)
         pca0 = AL.pca
         AL.pca = lambda m: (np.array(u), V)
         try:
-            real['max'] = [rat(x) for x in AL.get_max_pca_vect(xyz)]
-            real['min'] = [rat(x) for x in AL.get_min_pca_vect(xyz)]
+            for kk, fn in (('max', AL.get_max_pca_vect), ('min', AL.get_min_pca_vect)):
+                try:
+                    real[kk] = rats(fn(xyz))
+                except Exception as e:
+                    real[kk] = exc_tag(e)
         finally:
             AL.pca = pca0
         line2 = dict(line); line2.update({'eig_u': [rat(x) for x in u], 'eig_V': [rat(x) for x in V.ravel()]}); line2.pop('eig_err', None)
@@ -909,9 +1039,16 @@ def gen_align_checks(ctx):
     def short(line):
         return {k: (v if not isinstance(v, list) or len(v) < 8 else v[:8] + ['...']) for k, v in line.items()}
 
-    for line, (what, real), a in zip(lines_d, meta, ans):
+    def judge_line(line, what, real, a):
+        try:
+            return judge_line_(line, what, real, a)
+        except Exception as e:       # a comparison never raises: what it cannot make sense of is a disagreement
+            return what, f'comparison impossible ({type(e).__name__}: {str(e)[:120]}); real code: {str(real)[:160]}; generated: {str(a.get("model"))[:160]}'
+
+    def judge_line_(line, what, real, a):
         m = a.get('model')
         why = None
+        tag = what
         if isinstance(m, dict) and 'driver_error' in m:
             why = 'driver error: ' + str(m['driver_error'])
         elif line['func'] in ('align', 'align_interface', 'align_pca_vect'):
@@ -969,9 +1106,15 @@ def gen_align_checks(ctx):
                 sc = max([F(1)] + [abs(unrat(x)) for x in m['cov']])
                 if any(abs(unrat(x) - unrat(y)) > TOLR * sc for x, y in zip(real['cov'], m['cov'])):
                     why = f'the matrix handed to eigh: real {[float(unrat(x)) for x in real["cov"]]}, generated {[float(unrat(x)) for x in m["cov"]]}'
+        return tag, why
+
+    for line, (what, real), a in zip(lines_d, meta, ans):
+        tag, why = judge_line(line, what, real, a)
         stats[tag] = stats.get(tag, 0) + 1
         if why and bad is None:
             bad = {'what': what, 'why': why, 'driver_line': short(line)}
+    if crashes and bad is None:
+        bad = crashes[0]
     nerr = sum(v for t, v in stats.items() if ':ERR' in t)
     nok = sum(v for t, v in stats.items() if t.endswith(':ok'))
     return [{'name': f'align.py = its translation (Gen/Align.lean): align, align_interface, align_pca_vect, export_aligned, pca, get_max/min_pca_vect on '
